@@ -82,9 +82,16 @@ class World(object):
                         r[4] = r[4] - shift
                     for k in range(400, 1200, 97):        # and a few events above the nominal range (legal in float files)
                         vals[k][4] = 1500.0 + k
+                    for k in range(450, 1250, 131):       # scatter readings above the nominal range: outside every density-gate grid
+                        vals[k][0] = 1200.0 + k
+                        vals[k + 3][1] = 1100.0 + k
                     fpne = pne[:4] + ['0,0'] + pne[5:]
                 fcsgen.write_sample(p, vals, names, [1024] * 6, bits=16, datatype=dt, pne=fpne, pnv=pnv, extra=extra)
                 self.files[(inst, tag)] = os.path.basename(p)
+            # the same integer events with the parameters stored in the opposite order (channels are addressed by name)
+            p = os.path.join(self.dir, 'cells_%s_int_perm.fcs' % inst)
+            fcsgen.write_sample(p, ev[:, ::-1].tolist(), names[::-1], [1024] * 6, bits=16, pne=pne[::-1], pnv=pnv[::-1], extra=extra)
+            self.files[(inst, 'int-perm')] = os.path.basename(p)
             p = os.path.join(self.dir, 'cells_%s_short.fcs' % inst)
             fcsgen.write_sample(p, ev[:300].tolist(), names, [1024] * 6, bits=16, pne=pne, pnv=pnv, extra=extra)
             self.files[(inst, 'short')] = os.path.basename(p)
@@ -176,9 +183,14 @@ class World(object):
              'mef': ['MEF', 'mef', 'Mef '], 'unknown': ['furlongs', 'MEFs'], 'empty': [None]}
     BEADS_ROW = {'ok': 'BOK', 'nomef': 'BNOMEF', 'failed': 'BFAIL', 'nocurve': 'BNOCURVE', 'other-inst': 'BOTHER', 'other-amp': 'BAMP', 'other-volt': 'BVOLT'}
 
-    def sample_row(self, r, inst='A', variant=0, frac_in=0.3):
+    @staticmethod
+    def units_header(ch, style=0):
+        """the '<channel> Units' column header as a user may type it (the workflow's header pattern allows blanks)"""
+        return (ch + ' Units') if not style else (' ' + ch + '  Units ')
+
+    def sample_row(self, r, inst='A', variant=0, frac_in=0.3, style=0):
         fl = INSTR[inst]['fl'] + INSTR[inst]['extra']
-        f = {'ok-int': self.files[(inst, 'int')], 'ok-float': self.files[(inst, 'float' if variant % 2 == 0 else 'float2')],
+        f = {'ok-int': self.files[(inst, 'int' if variant % 3 != 1 else 'int-perm')], 'ok-float': self.files[(inst, 'float' if variant % 2 == 0 else 'float2')],
              'missing': 'no_such_file.fcs',
              'short': self.files[(inst, 'short')]}[r['file']]
         frac = {'in': frac_in, 'above': 1.2, 'below': -0.1}[r['frac']]
@@ -186,15 +198,16 @@ class World(object):
                                        ('Gate Fraction', frac)])
         for j, u in enumerate(r['units']):
             sp = self.SPELL[u]
-            row[fl[j] + ' Units'] = sp[(variant + j) % len(sp)]
+            row[self.units_header(fl[j], style)] = sp[(variant + j) % len(sp)]
         return row
 
-    def samples_table(self, rows, inst='A', variant=0, fracs=None):
+    def samples_table(self, rows, inst='A', variant=0, fracs=None, style=None):
         recs = collections.OrderedDict()
+        style = (variant % 4 == 3) if style is None else style          # one table in four has padded headers
         for i, r in enumerate(rows):
-            recs['S%d' % (i + 1)] = self.sample_row(r, inst, variant + i, frac_in=(fracs[i] if fracs else 0.3))
+            recs['S%d' % (i + 1)] = self.sample_row(r, inst, variant + i, frac_in=(fracs[i] if fracs else 0.3), style=style)
         t = pd.DataFrame.from_dict(recs, orient='index') if recs else pd.DataFrame(
-            columns=['Instrument ID', 'Beads ID', 'File Path', 'Gate Fraction'] + [c + ' Units' for c in INSTR[inst]['fl'] + INSTR[inst]['extra']])
+            columns=['Instrument ID', 'Beads ID', 'File Path', 'Gate Fraction'] + [self.units_header(c, style) for c in INSTR[inst]['fl'] + INSTR[inst]['extra']])
         t.index.name = 'ID'
         return t
 
